@@ -250,6 +250,9 @@ def gen_scalar(rng):
         return ["union", ["hook"], ["leaf2"]]
     if r < 0.93:
         return ["con", rng.choice(CON_NAMES)]
+    if r >= 0.985:
+        # typing.Any as an element type: nothing converts the element, so a set of them meets elements it cannot hash
+        return ["any"]
     return ["b", rng.choice(sorted(BUILTINS) + sorted(SHIPPED))]
 
 
@@ -265,6 +268,9 @@ def gen_type(rng, depth, allow_dc=True):
     if k == "cont":
         # a list constrained by contains=<scalar type>: every element is tried against that type
         return ["cont", gen_scalar(rng)]
+    if k in ("set", "fset") and rng.random() < 0.15:
+        # a set of typing.Any: nothing converts the elements, so the set is built from elements it may not be able to hash
+        return [k, ["any"]]
     if k in ("set", "fset") and not hashable:
         k = "list"
     if k == "ftup":
@@ -278,7 +284,7 @@ def tdsl_is_hashable(t):
     k = t[0]
     if k == "con":
         return t[1] != "uniq"
-    if k in ("leaf", "leaf2", "keyleaf", "hook", "b"):
+    if k in ("leaf", "leaf2", "keyleaf", "hook", "b", "any"):
         return k != "b" or t[1] not in ()
     if k in ("opt", "union", "xor", "and"):
         return all(tdsl_is_hashable(x) for x in t[1:])
@@ -298,6 +304,8 @@ def gen_value(rng, t, pool, pos, depth, hostile_p):
                 return {"$b": [t[1], N_HOSTILE - rng.choice([1, 2, 3, 4, 5])]}
             return {"$b": [t[1], rng.randrange(N_HOSTILE)]}
         return {"$b": [t[1], -1]}
+    if k == "any":
+        return {"$unhashable": 1} if rng.random() < 0.5 else 3
     if k == "con":
         r = rng.random()
         if t[1].startswith("o") and r < 0.6:
@@ -372,7 +380,7 @@ def generate(rng, tier):
             # a constrained type with pre_validate / post_validate hooks of its own (what they raise for a value means the
             # value does not parse, as for the hooks of the types the library ships)
             t = ["hook"]
-        while t[0] in ("leaf", "leaf2", "keyleaf", "b") and not (t[0] == "b" and t[1] in SHIPPED):
+        while t[0] in ("leaf", "leaf2", "keyleaf", "b", "any") and not (t[0] == "b" and t[1] in SHIPPED):
             # a plain registered type handed to type_transform is not one of the statement's subjects
             # ("constrained and logical types, data classes and decorated functions")
             t = gen_type(rng, 0)
@@ -539,6 +547,8 @@ def build_type(t, env):
             from utype import types as shipped
             return getattr(shipped, SHIPPED[t[1]])
         return BUILTINS[t[1]]
+    if k == "any":
+        return typing.Any
     if k == "and":
         from utype.parser.rule import LogicalType
         return LogicalType.all_of(*[build_type(x, env) for x in t[1:]])
